@@ -18,8 +18,8 @@ const (
 	c10Layouts      = 1 + c10PerEntry + c10PerEntry*c10PerEntry + c10PerEntry*c10PerEntry*c10PerEntry
 	c10Combos       = 32 // NetworkUnavailable x exclude label x ignoreExcludeLB x advertisement selects me x policy
 	c10EnumThorough = 512
-	c10RandThorough = 4000
-	c10EnumQuick    = 150
+	c10RandThorough = 16000
+	c10EnumQuick    = 400
 	c10RandQuick    = 300
 	c10QuickLayouts = 64
 	c10RandPerCase  = 100
